@@ -41,7 +41,9 @@ RULE = ('corpus of past failures / finding witnesses first, then seeded streams:
         'open_registry and a fresh registration; (text) arbitrary texts through set() incl. rejected ones; (file) hand-built hostile files '
         'through open_registry; (close) whole files with random defaults/help texts; (name) name lists through escape/join/split, '
         'isChannel, isValidRegistryName; (tree) histories of set/setValue/reset/get/save+load(+save again) on global, network and '
-        'channel level against a real tree; (live) the same through the commands of the real Config plugin on a live bot; (oracle-only) '
+        'channel level against a real tree, with channels of every CHANTYPES prefix, set-to-the-current-value steps and two save/boot rounds; '
+        '(tree-any) the same histories, property oracles only, over every value class (Regexp, Json, Float family, OnlySomeStrings, ...); '
+        '(lazy) in-process re-reads incl. every order of reset/set/call/parent-set after a re-read; (live) the same through the commands of the real Config plugin on a live bot; (oracle-only) '
         'classes outside the model. A case is non-trivial when it carries at least one model-branch tag; distinct = distinct input; '
         'a history counts as one case.')
 
